@@ -14,7 +14,9 @@ fn spec(files: &[u8], salt: &[u8; 16], key: &[u8; 32]) -> [u8; 20] { sha(&[key, 
 
 pub fn run(ctx: &mut Ctx) {
     let mut rng = ctx.rng("corr");
-    let mut lens: Vec<usize> = vec![0, 1, 54, 55, 56, 57, 63, 64, 65, 118, 119, 120, 121, 127, 128, 129, 183, 184, 500, 700];
+    // SHA-1 / HMAC block boundaries, and page-like sizes (4096 and 8192: an implementation that feeds the
+    // hasher in pages has its boundary cases there)
+    let mut lens: Vec<usize> = vec![0, 1, 54, 55, 56, 57, 63, 64, 65, 118, 119, 120, 121, 127, 128, 129, 183, 184, 500, 700, 4096, 8192];
     for _ in 0..(if ctx.quick() { 30 } else { 400 }) { lens.push(rng.range(0, 700) as usize); }
     for (i, len) in lens.iter().enumerate() {
         let data = rng.bytes(*len);
@@ -36,13 +38,14 @@ pub fn run(ctx: &mut Ctx) {
     let mut rng = ctx.rng("oracle");
     let n = if ctx.quick() { 4000 } else { 600_000 };
     for k in 0..n {
-        let len = if k % 50 == 0 { rng.range(0, 20000) } else { rng.range(0, 400) } as usize;
+        const EDGE: [usize; 16] = [511, 512, 513, 1023, 1024, 1025, 4095, 4096, 4097, 8191, 8192, 12288, 16384, 32768, 65535, 65536];
+        let len = if k % 50 == 0 { rng.range(0, 20000) as usize } else if k % 50 == 1 { EDGE[(k / 50) % 16] } else { rng.range(0, 400) as usize };
         let data = rng.bytes(len);
         let salt: [u8; 16] = rng.arr(); let key: [u8; 32] = rng.arr();
         let (f, g) = (cut(&mut rng, &data), cut(&mut rng, &data));
         ctx.oracle_runs += 1;
         let want = spec(&data, &salt, &key);
-        let det = |what: &str| format!("{{\"what\":\"{}\",\"files\":\"{}\",\"cut1\":{:?},\"cut2\":{:?},\"salt\":\"{}\",\"key\":\"{}\"}}", what, hex(&data[..data.len().min(300)]), f.iter().map(|x| x.len()).collect::<Vec<_>>(), g.iter().map(|x| x.len()).collect::<Vec<_>>(), hex(&salt), hex(&key));
+        let det = |what: &str| format!("{{\"what\":\"{}\",\"files\":\"{}\",\"cut1\":{:?},\"cut2\":{:?},\"salt\":\"{}\",\"key\":\"{}\"}}", what, hex(&data), f.iter().map(|x| x.len()).collect::<Vec<_>>(), g.iter().map(|x| x.len()).collect::<Vec<_>>(), hex(&salt), hex(&key));
         let r = catch(|| (login_integrity_check_windows(&f[0], &f[1], &f[2], &f[3], &f[4], &salt, &key), login_integrity_check_mac(&g[0], &g[1], &g[2], &g[3], &g[4], &salt, &key),
                           login_integrity_check_generic(&data, &salt, &key), login_integrity_check_windows(&g[0], &g[1], &g[2], &g[3], &g[4], &salt, &key)));
         match r {
